@@ -135,4 +135,71 @@ theorem C06_round_trip_formerly_failing :
   rw [← hb]
   exact this
 
+/-! ### the `SizeOfImage` clamp: the side condition of `C06_round_trip` is necessary -/
+
+/-- `tinyPe 2 226` with the raw data moved behind the image: SizeOfImage = 226, one section with
+VirtualAddress = 224, VirtualSize = 2, PointerToRawData = 226, SizeOfRawData = 2 (raw bytes `cc dd` at
+`[226, 228)` of the 228-byte file) — stored AND mapped, but stored at file offsets ≥ SizeOfImage. -/
+def clampBytes : Bytes := ((tinyPe 2 226).set! 204 226) ++ #[204, 221]
+def clampV : View := ⟨⟨clampBytes, 0⟩, .pe32, .file, imageBaseField .pe32 clampBytes⟩
+def clampW : View := ⟨⟨clampV.toView, 0⟩, .pe32, .view, imageBaseField .pe32 clampV.toView⟩
+
+/-- **The clamp loses stored-and-mapped bytes.**  `to_file` sizes its result `min(max raw end, SizeOfImage)`
+(view.rs:99-104), so on this `LoadableFile` input the round trip returns at most 226 bytes and the
+section's bytes — mapped at 224 in the converted buffer, `C06_to_view_section` — have no place in it: at
+`s.prd + 0 = 226` the original file has `cc`, the round-tripped file nothing.  Every hypothesis of
+`C06_round_trip` holds; only the side condition `s.prd + j < SizeOfImage` fails.  (The real code answers the
+same: after `img_to_view`, `img_to_file` the file is 226 bytes long and `derva_copy f32 u8 224` is `Invalid`.) -/
+theorem C06_round_trip_clamp_false :
+    fromBytes .pe32 .file ⟨clampBytes, 0⟩ = .ok clampV ∧ LoadableFile clampV ∧
+    fromBytes .pe32 .view ⟨clampV.toView, 0⟩ = .ok clampW ∧
+    (⟨0, 0, 2, 224, 2, 226, 0⟩ : Sec) ∈ clampV.secs ∧ sizeOfImage clampV.b = 226 ∧
+    (0 < min (⟨0, 0, 2, 224, 2, 226, 0⟩ : Sec).vs (⟨0, 0, 2, 224, 2, 226, 0⟩ : Sec).rs) ∧
+    ¬ ((⟨0, 0, 2, 224, 2, 226, 0⟩ : Sec).prd + 0 < 226) ∧
+    byteAt clampV.b 226 = 204 ∧ byteAt clampV.toView 224 = 204 ∧
+    clampW.toFile.size ≤ 226 ∧ byteAt clampW.toFile 226 = 0 := by
+  have h1 : fromBytes .pe32 .file ⟨clampBytes, 0⟩ = .ok clampV :=
+    (fromBytes_ok_iff _ _ _ _).2 ⟨by decide +kernel, rfl⟩
+  have h2 : LoadableFile clampV := by unfold LoadableFile Loadable; decide +kernel
+  have h3 : fromBytes .pe32 .view ⟨clampV.toView, 0⟩ = .ok clampW :=
+    C06_to_view_accepted _ _ _ h1 h2 0 (by decide)
+  have hs : (⟨0, 0, 2, 224, 2, 226, 0⟩ : Sec) ∈ clampV.secs := by decide +kernel
+  have hsoi : sizeOfImage clampV.b = 226 := by decide +kernel
+  have hb : byteAt clampV.b 226 = 204 := by decide +kernel
+  have hsize : clampW.toFile.size ≤ 226 := by
+    rw [C06_to_file_size _ _ _ h3, ← hsoi]
+    exact (C06_round_trip_setup _ _ _ h1 h2 0 _ h3).2.2.2.2.2.2.2
+  refine ⟨h1, h2, h3, hs, hsoi, by decide, by decide, hb, ?_, hsize, ?_⟩
+  · have := C06_to_view_section _ _ _ h1 h2.1 _ hs 0 (by decide)
+    rw [← hb]
+    exact this
+  · rw [byteAt_eq, Array.getElem?_eq_none (by omega)]
+    rfl
+
+/-! ### `LoadableFile` allows an ordinary `.bss` section -/
+
+/-- `twoSecPe32` (Lemmas/PeHdr.lean) with its second section turned into a plain `.bss`:
+`SizeOfRawData = 0`, `PointerToRawData = 0` (VirtualSize 8 at rva 288 stays) -/
+def bssBytes : Bytes := ((twoSecPe32.set! 256 0).set! 260 0).set! 261 0
+def bssV : View := ⟨⟨bssBytes, 0⟩, .pe32, .file, imageBaseField .pe32 bssBytes⟩
+
+/-- Since the second audit round `LoadableFile` asks `SizeOfHeaders ≤ PointerToRawData` only of sections
+that HAVE raw data; this file — whose `.bss` has `PointerToRawData = 0 < SizeOfHeaders` — satisfies it, the
+converted buffer is accepted and the round trip reproduces the stored section (both through the general
+theorems; `C06_round_trip` and `C06_to_view_accepted` are unchanged statements over the wider class). -/
+example : fromBytes .pe32 .file ⟨bssBytes, 0⟩ = .ok bssV ∧ LoadableFile bssV ∧
+    bssV.secs = [⟨0x612e, 0, 4, 280, 4, 280, 0⟩, ⟨0x7373622e, 0, 8, 288, 0, 0, 0⟩] ∧
+    ¬ (sizeOfHeaders bssV.b ≤ (⟨0x7373622e, 0, 8, 288, 0, 0, 0⟩ : Sec).prd) ∧
+    ∃ w, fromBytes .pe32 .view ⟨bssV.toView, 0⟩ = .ok w ∧
+      (∀ j, j < 4 → byteAt w.toFile (280 + j) = byteAt bssV.b (280 + j)) := by
+  have h1 : fromBytes .pe32 .file ⟨bssBytes, 0⟩ = .ok bssV :=
+    (fromBytes_ok_iff _ _ _ _).2 ⟨by decide +kernel, by unfold bssV; with_reducible rfl⟩
+  have h2 : LoadableFile bssV := by unfold LoadableFile Loadable; decide +kernel
+  have hsecs : bssV.secs = [⟨0x612e, 0, 4, 280, 4, 280, 0⟩, ⟨0x7373622e, 0, 8, 288, 0, 0, 0⟩] := by decide +kernel
+  refine ⟨h1, h2, hsecs, by decide +kernel, _, C06_to_view_accepted _ _ _ h1 h2 0 (by decide), ?_⟩
+  intro j hj
+  exact (C06_round_trip _ _ _ h1 h2 0 _ (C06_to_view_accepted _ _ _ h1 h2 0 (by decide))).2
+    ⟨0x612e, 0, 4, 280, 4, 280, 0⟩ (by rw [hsecs]; exact List.mem_cons_self) j (by simpa using hj)
+    (by rw [show sizeOfImage bssV.b = 296 by decide +kernel]; show 280 + j < 296; omega)
+
 end Pelite.Pe
